@@ -55,7 +55,8 @@ class Gen:
     def __init__(self, rng, profile="py", tag_calls=False, max_ops=12, nphases=None, allow_end=True,
                  weird_names=True, persistent_arrays=True, multi_result=True, persist_tag="",
                  readonly_state=(), advance_time=True, phase_plan=None, components=None, funcs=None,
-                 ifexpr=True, call_bias=0.0, counters=None, extra_locals=()):
+                 ifexpr=True, call_bias=0.0, counters=None, extra_locals=(), containers=False):
+        self.containers = containers
         self.ifexpr = ifexpr
         self.call_bias = call_bias
         self.counters = list(counters or COUNTERS)
@@ -619,6 +620,20 @@ class Gen:
         """Call statement (AssignFunctionCall), incl. multi-result user functions."""
         rng = self.rng
         r = rng.random()
+        if self.containers and rng.random() < 0.3:
+            # container-valued arguments (tuple / list of expressions), as the parser produces for
+            # '<func>f((a, 2*b), [c])'; the function adds everything up
+            f = "<func>bag"
+            if f not in self.funcs:
+                self.funcs[f] = {"kind": "bag", "args": ["a0", "a1"], "coef": [0.5, 1, 2], "nres": 1}
+            def cont():
+                items = [self.num_expr(sc, rng.choice([0, 0, 1])) for _ in range(rng.choice([2, 2, 3]))]
+                return [rng.choice(["tuple", "list"])] + items
+            call = self._mkcall(f, [cont(), cont() if rng.random() < 0.5 else self.num_expr(sc, 1)])
+            lhs = rng.choice(persist["nums"]) if persist and rng.random() < 0.3 else self.new_local(sc, LOCAL_NAMES)
+            sc.kill(lhs)
+            sc.nums.append(lhs)
+            return ["call", [lhs], call[1], call[2], call[3], self.s(*(call[2] + list(call[3].values())))]
         if r < 0.35 and self.multi_result:
             nres = rng.choice([2, 3])
             f = self.func("scalar", nres=nres)
@@ -1032,10 +1047,21 @@ def make_py_function(name, spec, wrap=None):
     coef = spec["coef"]
     nres = spec.get("nres", 1)
 
+    def flat(v):
+        if isinstance(v, (tuple, list)):
+            tot = 0
+            for x in v:
+                tot = tot + flat(x)
+            return tot
+        return v
+
     def f(*args, **kw):
         tag = kw.pop("tag", None)
         if wrap is not None:
             wrap(name, tag)
+        if spec.get("kind") == "bag":
+            args = tuple(flat(a) for a in args)
+            kw = {n: flat(v) for n, v in kw.items()}
         vals = list(args)
         for n in names[len(args):]:
             vals.append(kw.pop(n))
